@@ -47,7 +47,16 @@ pub extern "C" fn tsrun_fulfill_orders(
             let result = if resp.error.is_null() {
                 // Success case
                 if let Some(val) = resp.value.as_ref() {
-                    Ok(RuntimeValue::unguarded(val.value().clone()))
+                    // The response outlives the caller's handle (which may be released right
+                    // after this call): an object gets a guard of its own until it is delivered
+                    let value = val.value().clone();
+                    if let JsValue::Object(ref obj) = value {
+                        let guard = ctx.interp.heap.create_guard();
+                        guard.guard(obj.cheap_clone());
+                        Ok(RuntimeValue::with_guard(value, guard))
+                    } else {
+                        Ok(RuntimeValue::unguarded(value))
+                    }
                 } else {
                     Ok(RuntimeValue::unguarded(JsValue::Undefined))
                 }
